@@ -433,6 +433,9 @@ def shape_of(ty):
     return None
 
 
+FWD_ALLOW = ("convert::AsRef::as_ref", "convert::AsMut::as_mut", "Result::<T, E>::unwrap", "Result::<T, E>::expect")
+
+
 def check_forwarders(F, rep):
     n = 0
     for im in F.impls:
@@ -447,10 +450,19 @@ def check_forwarders(F, rep):
                 continue
             m = it["n"]
             calls = set()
+            n_cast = 0
+            extra = []
             for node, _p in facts.walk(b["body"]):
                 c = node.get("c")
-                if isinstance(c, dict) and "d" in c and F.S[c["d"]].startswith("cast::"):
-                    calls.add(F.S[c["d"]].split("::")[-1])
+                if isinstance(c, dict) and "d" in c:
+                    d = F.S[c["d"]]
+                    if d.startswith("cast::"):
+                        calls.add(d.split("::")[-1])
+                        n_cast += 1
+                    elif not d.endswith(FWD_ALLOW) and not node.get("exp"):
+                        extra.append(d.split("::")[-1])
+                if node.get("k") in ("match", "if", "closure", "loop", "ret") and not node.get("exp"):
+                    extra.append("<%s>" % node["k"])
             key = "%s::%s[%s<%s>]" % (tr.split("::")[-1], m, im["self_s"], ",".join(im["trait_args_s"]))
             n += 1
             if m in MIRROR:
@@ -470,6 +482,11 @@ def check_forwarders(F, rep):
                 rep.fail("CAST-FWD", key, "cast trait method without a forwarding rule", F.loc(b))
                 continue
             rep.ob("CAST-FWD", key, calls == {want}, "calls %s, expected %s" % (sorted(calls), want), F.loc(b), nontrivial=False)
+            # thin: the trait method IS the cast function (the length / capacity rejection and the handing back of the buffer are decided
+            # there, CAST-1..3): one call, no control flow, nothing else but the reference adapters and the documented panic on Err
+            if n_cast != 1 or extra:
+                rep.fail("CAST-FWD", key + " thin", "the forwarder does more than forward: %d cast calls, also %s (a retry, a fallback or a copy here bypasses "
+                         "the rejection rules of the cast function)" % (n_cast, sorted(set(extra))), F.loc(b))
     rep.floor("cast trait forwarders", n, 100)
 
 
